@@ -32,8 +32,7 @@ Modelling decisions
     `agents.position` says and still carries that agent's head code (nobody wrote over it), heads are
     pairwise distinct, the start and target cells of an agent carry only that agent's codes, and each
     agent's cells (paths + head) form one 4-connected set that contains its start and whose size never
-    exceeds step_count + 1 (+ anything already on the reset grid is not assumed: generators emit no
-    paths).  On completion (all agents connected) every head sits on its target and its route therefore
+    exceeds step_count + 1 (the shipped generators emit reset grids without path cells).  On completion (all agents connected) every head sits on its target and its route therefore
     links start to target.
   * Only DenseRewardFn is shipped; for another reward class the reward is not compared.
 """
